@@ -7,6 +7,7 @@ import (
 	"fmt"
 	"runtime/debug"
 	"strings"
+	"verifharness/internal/props/c01/triage"
 
 	"github.com/vektah/gqlparser/v2"
 	gast "github.com/vektah/gqlparser/v2/ast"
@@ -23,6 +24,7 @@ type c01 struct{ fw.Base }
 func init() { fw.Register(c01{}) }
 
 func (c01) ID() string { return "C01" }
+
 // richCases: cases with the "rich" operation profile (several fragments per selection set, fragment
 // bodies that re-select fields of the enclosing level); they follow the base cases in the index space.
 func richCases(tier string) int {
@@ -38,7 +40,7 @@ func baseCases(tier string) int {
 	return 2000
 }
 func (c01) NumCases(tier string) int { return baseCases(tier) + richCases(tier) }
-func (c01) CaseTimeout(string) int { return 180 }
+func (c01) CaseTimeout(string) int   { return 180 }
 func (c01) Rule() string {
 	return "case = generated federation layout (2-3 subgraphs; entities with keys resolvable in every defining subgraph, single-owner and @shareable fields, value types, @requires, @provides, interfaces and unions over entities, lookup / list / abstract root fields, mutations; every feature individually switchable) x " + fmt.Sprint(opsPerCase) + " valid-by-construction operations (fragments on abstract types, aliases, duplicates, arguments by literal and variable, @skip/@include) x coercible variables, executed by a real ExecutionEngine whose subgraphs are in-process semantic GraphQL servers over one hash-defined universe. Oracles: data == reference executor on the supergraph (independent parser), errors empty on both sides, planning never fails, every subgraph request valid for the subgraph schema (gqlparser), variables coercible, every selected field owned by that subgraph (or key / provided / required input). Non-trivial = >=2 subgraph requests incl. >=1 _entities request; distinct by hash of (layout, operation, variables)."
 }
@@ -160,7 +162,7 @@ func (p c01) Run(c *fw.Ctx, idx int) fw.Result {
 		res.Count("operations", 1)
 		got, panicked := safeExecute(gw, text, vars)
 		if panicked != nil {
-			m := map[string]string{"features": featureString(prof), "operation_kind": string(gop.Operation), "union_fragment_in_non_union_parent": fmt.Sprint(gen.UnionFragmentInNonUnionParent(l.Super, doc)), "panic": panicked.sig}
+			m := map[string]string{"features": featureString(prof), "operation_kind": string(gop.Operation), "union_fragment_in_non_union_parent": fmt.Sprint(gen.UnionFragmentInNonUnionParent(l.Super, doc)), "incomparable_type_condition_chains": fmt.Sprint(triage.IncomparableTypeConditionChains(superGql, qd, gop)), "panic": panicked.sig}
 			res.Violate("panic", "the engine panicked on a valid operation: "+panicked.msg, m, detail(map[string]any{"stack": panicked.stack}))
 			continue
 		}
@@ -174,7 +176,7 @@ func (p c01) Run(c *fw.Ctx, idx int) fw.Result {
 		}
 		res.Count("subgraph_requests", int64(len(got.Requests)))
 		res.Count("entity_requests", int64(nEnt))
-		match := map[string]string{"features": featureString(prof), "operation_kind": string(gop.Operation), "union_fragment_in_non_union_parent": fmt.Sprint(gen.UnionFragmentInNonUnionParent(l.Super, doc))}
+		match := map[string]string{"features": featureString(prof), "operation_kind": string(gop.Operation), "union_fragment_in_non_union_parent": fmt.Sprint(gen.UnionFragmentInNonUnionParent(l.Super, doc)), "incomparable_type_condition_chains": fmt.Sprint(triage.IncomparableTypeConditionChains(superGql, qd, gop))}
 		full := func(extra map[string]any) map[string]any {
 			d := detail(map[string]any{"requests": reqDump, "gateway_response": truncate(got.Raw, 3000)})
 			for k, v := range extra {
